@@ -421,10 +421,13 @@ class ScriptedSolver:
                 x = np.minimum(np.maximum(x, lb), ub)
                 outer.log.append({"solve": k, "ok": ok, "n_g": nlp["g"].shape[0]})
                 self._ok = ok
+                self._k = k
                 return {"x": ca.DM(x), "f": ca.DM(float(k + 1)), "lam_g": ca.DM.zeros(nlp["g"].shape[0]),
                         "lam_x": ca.DM.zeros(n)}
 
             def stats(self):
-                return {"success": self._ok, "return_status": "Solve_Succeeded" if self._ok else "Infeasible_Problem_Detected"}
+                # (failures report different IPOPT statuses in turn; every one of them is a failed solve)
+                fails = ("Infeasible_Problem_Detected", "Not_Enough_Degrees_Of_Freedom", "Maximum_Iterations_Exceeded", "Restoration_Failed")
+                return {"success": self._ok, "return_status": "Solve_Succeeded" if self._ok else fails[self._k % len(fails)]}
 
         return S()
